@@ -8,7 +8,6 @@ import (
 	"strings"
 
 	"github.com/cloudwego/eino/compose"
-	"github.com/cloudwego/eino/schema"
 )
 
 // ---------------------------------------------------------------------------------------------------
@@ -140,8 +139,8 @@ func (m *gModel) Key() string {
 
 func (m *gModel) Tags() string {
 	t := "graph"
-	for i, n := range m.s.br {
-		if n > 0 && i < len(m.b.brs) {
+	for _, n := range m.s.br {
+		if n > 0 {
 			t = "graph-branches"
 		}
 	}
@@ -320,6 +319,7 @@ func (m *gModel) Step(c *Call) (Model, Expect, bool) {
 	}
 	// live
 	var rules []string
+	nviol := 0
 	n := &gModel{b: m.b, s: m.s}
 	n.s.depth++
 	switch c.Op {
@@ -349,7 +349,10 @@ func (m *gModel) Step(c *Call) (Model, Expect, bool) {
 		if c.U == compose.END || c.V == compose.START {
 			rules = append(rules, "reserved-key-as-wrong-endpoint")
 		}
-		if (c.U != compose.START && c.U != compose.END && !m.has(c.U)) || (c.V != compose.END && c.V != compose.START && !m.has(c.V)) {
+		if c.U != compose.START && c.U != compose.END && !m.has(c.U) {
+			rules = append(rules, "unknown-key")
+		}
+		if c.V != compose.END && c.V != compose.START && !m.has(c.V) {
 			rules = append(rules, "unknown-key")
 		}
 		bit := m.edgeBit(c)
@@ -371,10 +374,8 @@ func (m *gModel) Step(c *Call) (Model, Expect, bool) {
 		for _, t := range c.T {
 			if t != compose.END && !m.has(t) {
 				rules = append(rules, "unknown-key")
-				break
 			}
 		}
-		rules = dedupe(rules)
 		if len(rules) == 0 {
 			n.s.br[m.brIdx(c)]++
 		}
@@ -387,8 +388,9 @@ func (m *gModel) Step(c *Call) (Model, Expect, bool) {
 		}
 	}
 	if len(rules) > 0 {
-		sort.Strings(rules)
-		return m.kill(c, rules), Expect{HasErr: true, V: vReject, Rules: rules, From: stLive}, true
+		nviol = len(rules)
+		rules = dedupe(rules)
+		return m.kill(c, rules), Expect{HasErr: true, V: vReject, Rules: rules, NViol: nviol, From: stLive}, true
 	}
 	return n, Expect{HasErr: true, V: vAccept, From: stLive}, true
 }
@@ -456,7 +458,7 @@ func probe[I, O any](r compose.Runnable[I, O], in I) probeFn {
 			return fmt.Sprintf("err:stream:%s (invoke gave %v)", firstLine(err.Error()), out)
 		}
 		defer sr.Close()
-		var chunks []O
+		var chunks []string
 		for {
 			ch, e := sr.Recv()
 			if e == io.EOF {
@@ -465,8 +467,9 @@ func probe[I, O any](r compose.Runnable[I, O], in I) probeFn {
 			if e != nil {
 				return fmt.Sprintf("err:stream-recv:%s (invoke gave %v)", firstLine(e.Error()), out)
 			}
-			chunks = append(chunks, ch)
+			chunks = append(chunks, fmt.Sprintf("%v", ch))
 		}
+		sort.Strings(chunks) // chunks of parallel nodes legitimately arrive in either order
 		return fmt.Sprintf("ok:invoke=%v stream=%v", out, chunks)
 	}
 }
@@ -539,5 +542,3 @@ func compileAsSub[I, O any](g compose.AnyGraph) (compose.Runnable[I, O], error) 
 	}
 	return parent.Compile(context.Background())
 }
-
-var _ = schema.User
